@@ -20,9 +20,13 @@ func main() { mon.Main("C08", run) }
 
 type wit = s35.Wit
 
+// keptSignals: decoded signals that are looked at again after many later ones were decoded.
+var keptSignals mon.Keeper
+
 func run(c *mon.Ctx) {
 	c.Rule("splice_info_sections built from ground truth by a reference SCTE 35 encoder: splice_null / time_signal / splice_insert with every flag combination, 0..4 descriptors (segmentation descriptors with every flag combination, component lists, 40-bit durations, UPID or MID, sub-segments; foreign tags), boundary values of all 33/40-bit fields, pointer_field in {0,1,5,30}; plus the four rejection classes. distinct non-trivial = distinct (command shape, multiset of descriptor shapes) with a command time or at least one descriptor")
 	c.Assume("reference encoder in internal/ref/scte35.go (every section self-checked for CRC residue 0); encryption_algorithm is varied as noise; delivery restriction getters are asserted only when delivery_not_restricted is 0; a time_signal without time or a timed splice_insert without time are outside the supported syntax")
+	c.Floor("kept.decoded signal.looked_at_again_after_64_or_more_later_objects", 4000)
 	c.Floor("rejected.unsupported_command", 200)
 	c.Floor("rejected.encrypted", 100)
 	c.Floor("rejected.table_id", 100)
@@ -139,6 +143,16 @@ func run(c *mon.Ctx) {
 			c.Fail("decode:data", "Data() of a decoded signal is not the section bytes", wit{mon.Hex(snap), s35.Shape(&s), mon.Hex(x.Data())})
 		}
 		s35.CheckDecoded(c, "decode", &s, x, snap)
+		if i%4 == 0 {
+			// an object of its own is kept and looked at again after 1 ... 4095 later sections were decoded
+			if xk, err := scte35.NewSCTE35(append([]byte{}, snap...)); err == nil && xk != nil {
+				truth, in := s, snap
+				keptSignals.Keep(c, "decoded signal", r, func() string {
+					s35.CheckDecoded(c, "decode:object-kept-across-many-later-decodes", &truth, xk, in)
+					return ""
+				})
+			}
+		}
 		if !bytes.Equal(in, snap) {
 			c.Fail("decode:input-modified", "decoding or a getter modified the input", wit{mon.Hex(snap), s35.Shape(&s), ""})
 		}
